@@ -1,6 +1,6 @@
 (* C09 — property theorems only: statement, `exact <lemma>`, Print Assumptions.
    mai = MaxArrayIndex (config.go); the model is parametric in it. *)
-From GL Require Import Common.Bytes Table.TImpl Table.TSpec Table.TInv Table.TRefine Table.TGet Table.TNext.
+From GL Require Import Common.Bytes Table.TImpl Table.TSpec Table.TInv Table.TRefine Table.TGet Table.TNext Table.TLib Table.TNextR.
 
 (* (1) the representation invariant holds after every history (hash-part setter used with
    hash-part keys, positions given to Remove >= 1: [op_ok]) *)
@@ -88,6 +88,21 @@ Theorem next_under_update : forall mai, 1 <= mai -> forall fin t0 tr,
              In k (map tkey tr)).
 Proof. exact next_under_update_lemma. Qed.
 Print Assumptions next_under_update.
+
+(* (5') the same when, between the Next calls, elements are also removed with table.remove
+   (which only assigns existing fields; LTable shortens its array part — after fix 2ba8ccb the
+   cursor is handed over to the hash part correctly): no key twice, termination bound, every
+   reported value non-nil, and a finished traversal visited every key present at every Next call *)
+Theorem next_under_remove : forall mai, 1 <= mai -> forall fin t0 tr,
+  WF mai t0 -> len (arr t0) < mai -> travx mai fin t0 None tr ->
+  NoDup (map tkey tr) /\
+  (length tr <= length (arr t0) + length (keys t0))%nat /\
+  (forall e, In e tr -> snd (fst e) <> VNil) /\
+  (fin = true ->
+   forall k, RawGet mai t0 k <> VNil -> (forall e, In e tr -> RawGet mai (snd e) k <> VNil) ->
+             In k (map tkey tr)).
+Proof. exact next_under_remove_lemma. Qed.
+Print Assumptions next_under_remove.
 
 (* ---- open known finding C09-2: the hypotheses `len (arr t) + 1 < mai` above are needed ---- *)
 From GL Require Import Table.TFindings.
